@@ -81,6 +81,13 @@ CLAIMED["C20"] = {
   "technique": "machine-checked proof in Lean 4 (loop invariant over input lines and files) + model/binary correspondence check + in-process library oracle",
 }
 
+CLAIMED["C08"] = {
+  "text": "Lean 4 theorems (Geodesy/Props/C08.lean) over the model of BaseGrid::contains / BaseGrid::at / grids_at, the Gravsoft reader and normalisation, and the NTv2 reader and sub-grid walk, read over the reals: the delivered value IS the bilinear form of the four corner nodes of the clamped cell (bilinear_eq), reproduces node values at nodes (at_node), is a convex combination of the corners inside a cell (at_convex), two adjacent cells agree on their common edge (at_edge_agree), outside the grid the same bilinear form of the border cell continues (at_margin_linear), containment with margin is exactly the documented box (contains_iff); grids_at returns the value of the FIRST grid containing the point, else of the first within the half-cell margin, else the origin with the null grid and failure without (grids_at_first_hit, first_hit_position, outside_all), and the unit/band normalisation maps are as documented (swap specs). Tied to /repo by a correspondence run of the model against BaseGrid::gravsoft / Ntv2Grid::new / Grid::at / grids_at on generated Gravsoft and NTv2 files (1-3 bands, any geometry, random parent/child trees) at nodes, on borders, in the margin and outside, and by oracles on the implementation: brute-force reference interpolation, deepest-sub-grid reference for NTv2 trees, continuity across cells and consistent sub-grids, list-order/first-hit through gridshift, deformation and deflection over a harness Context serving in-memory grids (incl. points in the margin of two grids, @null), and sign/unit conventions on the shipped grids.",
+  "design_ref": "DESIGN.md section 7, C08",
+  "note": "Partial: f32 storage and f64 rounding are outside the real-number reading (the correspondence compares to 1e-9 relative); the NTv2 deepest-sub-grid rule is decided by correspondence + reference oracle, the theorems cover the single-grid and grid-list rules; deflection's finite-difference formula is checked by the oracle only.",
+  "technique": "machine-checked proof in Lean 4 (real-number reading of the interpolation, induction over the grid list) + model/implementation correspondence check + reference-interpolation and first-hit oracles",
+}
+
 ALL = ["C%02d" % i for i in range(1, 21)]
 
 def main():
